@@ -406,7 +406,9 @@ func (gang *Gang) setChild(pod *v1.Pod) {
 	} else {
 		klog.V(6).Infof("UpdateChild, gangName: %v, childName: %v", gang.Name, podId)
 	}
-	if pod.Spec.NodeName == "" && gang.WaitingForBindChildren[podId] == nil {
+	// a stale update (node name not yet visible) of a pod that is already waiting or bound must not
+	// put it back into the pending set.
+	if pod.Spec.NodeName == "" && gang.WaitingForBindChildren[podId] == nil && gang.BoundChildren[podId] == nil {
 		_, pendingExisted := gang.PendingChildren[podId]
 		gang.PendingChildren[podId] = pod
 		if !pendingExisted {
